@@ -154,6 +154,9 @@ pub struct Counters {
     pub p_auto_plain: u64,
     pub p_overlapping_occurrences: u64,
     pub p_empty_output: u64,
+    pub p_tall_input: u64,
+    pub p_more_than_256_files: u64,
+    pub p_descriptor_limit: u64,
     pub known_findings: u64,
 }
 
@@ -167,7 +170,7 @@ impl Counters {
             p_line_longer_than_buffer, p_pattern_file_trickled, p_two_files_no_filename,
             p_colored_runs, p_highlight_checked_lines, p_multibyte_highlight, p_dev_runs,
             p_release_runs, p_auto_colored, p_auto_plain, p_overlapping_occurrences,
-            p_empty_output, known_findings
+            p_empty_output, p_tall_input, p_more_than_256_files, p_descriptor_limit, known_findings
         );
     }
 }
@@ -931,6 +934,15 @@ pub fn run(sc: &Scenario, bins: &Bins, dir: &Path, known_crlf: bool) -> Outcome 
     if sc.files.len() >= 2 && sc.flag_h {
         c.p_two_files_no_filename += 1;
     }
+    if sc.files.iter().any(|f| f.1.len() > 65_536) {
+        c.p_tall_input += 1;
+    }
+    if sc.files.len() > 256 {
+        c.p_more_than_256_files += 1;
+    }
+    if sc.nofile_limit > 0 {
+        c.p_descriptor_limit += 1;
+    }
     let (exp, nonmatching, overlapping) = expected_lines(sc, false);
     if overlapping {
         c.p_overlapping_occurrences += 1;
@@ -1171,6 +1183,34 @@ pub fn generate(seed: u64, cfg: &GenCfg) -> Scenario {
         }
         nofile_limit = 12;
     }
+    if !cfg.small && !many && nofile_limit == 0 && rng.chance(1, 250) {
+        // a tall input: more than 2^16 lines, matching lines on both sides of that boundary
+        let n = rng.range(65_530, 66_200);
+        let hit = gen_line(&mut rng, &patterns, false, None);
+        let mut lines: Vec<String> = Vec::with_capacity(n);
+        for i in 0..n {
+            if i < 3 || i % 9973 == 0 || (65_533..65_540).contains(&i) || i + 2 >= n {
+                lines.push(if rng.chance(2, 3) { patterns[rng.below(patterns.len())].clone() } else { hit.clone() });
+            } else {
+                lines.push(if i % 2 == 0 { "q".to_string() } else { String::new() });
+            }
+        }
+        if files.is_empty() {
+            files.push(("tall.txt".to_string(), lines));
+        } else {
+            let at = rng.below(files.len());
+            files[at].1 = lines;
+        }
+    }
+    if !cfg.small && !many && nofile_limit == 0 && rng.chance(1, 400) {
+        // more than 256 input files
+        files.clear();
+        for i in 0..rng.range(257, 300) {
+            let n = rng.below(3);
+            let lines: Vec<String> = (0..n).map(|_| gen_line(&mut rng, &patterns, false, None)).collect();
+            files.push((format!("m{i:03}.txt"), lines));
+        }
+    }
     let nfiles = files.len();
     let stdin_lines = if nfiles == 0 { gen_lines(&mut rng) } else { vec![] };
     let dup_file = files.len() >= 1 && rng.chance(1, 12);
@@ -1205,6 +1245,12 @@ pub fn generate(seed: u64, cfg: &GenCfg) -> Scenario {
         sc.files.insert(at, f);
     }
     sc.sched = gen_sched(&mut rng, mode);
+    if sc.files.iter().any(|f| f.1.len() > 60_000) {
+        // a tall input under a one-byte default would mean a million system calls: keep the
+        // listed faults, let the rest pass
+        sc.sched.read_default = Act::Pass;
+        sc.sched.write_default = Act::Pass;
+    }
     sc
 }
 
